@@ -347,6 +347,31 @@ fn fam_codec(tag: &str, out: &mut Vec<Case>) {
         if RistrettoRangeProof::from_bytes(&[]).is_ok() { return Err("empty string accepted".into()); }
         Ok(())
     })));
+    let id = format!("{}:codec:serde-set", tag);
+    out.push((id, Box::new(move || {
+        // the serde form (bincode: u64 length prefix + bytes) accepts and produces exactly the byte strings of from_bytes / to_bytes, for every size
+        for d in 0usize..=7 {
+            for cnt in 0usize..=70 {
+                for extra in [0usize, 1] {
+                    let mut v = vec![d as u8];
+                    v.extend(std::iter::repeat(0u8).take(32 * cnt + extra));
+                    let mut ser = (v.len() as u64).to_le_bytes().to_vec();
+                    ser.extend_from_slice(&v);
+                    let a = RistrettoRangeProof::from_bytes(&v);
+                    let b = catch_unwind(AssertUnwindSafe(|| bincode::deserialize::<RistrettoRangeProof>(&ser))).map_err(|_| format!("serde deserialize panicked ({} elements)", cnt))?;
+                    if a.is_ok() != b.is_ok() {
+                        return Err(format!("serde form {} a byte string (first byte {}, {} elements, +{} bytes) that from_bytes {}", if b.is_ok() { "accepts" } else { "refuses" }, d, cnt, extra, if a.is_ok() { "accepts" } else { "refuses" }));
+                    }
+                    if let (Ok(p), Ok(q)) = (a, b) {
+                        if p != q { return Err("serde form decodes to a different proof".into()); }
+                        let out = bincode::serialize(&p).map_err(|e| format!("{:?}", e))?;
+                        if out != ser { return Err(format!("serde form produces other bytes than to_bytes ({} elements)", cnt)); }
+                    }
+                }
+            }
+        }
+        Ok(())
+    })));
     let id = format!("{}:codec:prover-outputs", tag);
     out.push((id, Box::new(move || {
         let mut rng = rng_for("codec2");
